@@ -207,6 +207,15 @@ class Gen:
                     child["ops"].append({"op": "eternity"})
             if rng.random() < 0.25:
                 child["after"] = rng.choice(self.delays)
+            if subject and rng.random() < 0.12:
+                # a child that, when it is closed, starts a replacement in the very scope that is
+                # closing it (from its clean-up handler, without suspending): refused
+                late = {"name": self.fresh("l"), "ops": [{"op": "now", "tag": "late"},
+                                                         {"op": "sleep", "d": 1},
+                                                         {"op": "now", "tag": "late"}]}
+                child["ops"] = [{"op": "finally", "handler": [],
+                                 "body": child["ops"] + [{"op": "sleep", "d": rng.choice([1, 2, 4])}],
+                                 "sync": [{"op": "spawn", "into": op["label"], "actor": late}]}]
             op["children"].append(child)
         op["body"] = self.body(depth)
         if subject and rng.random() < 0.15:
